@@ -369,6 +369,35 @@ def rule_MP4(rep, prog, q, ex):
                 "or the queue is never re-driven", sample={"wakeups": len(wk), "release_2": len(rel)})
 
 
+def rule_MP8(rep, prog, q):
+    rid = rep.rule("C06-MP8", "the library's own temporary suspension of an inactive object (set_target_queue, set_*_handler: _dispatch_lane_try_inactive_suspend) is "
+                   "always given back: every path from the successful suspend to a return passes _dispatch_lane_resume - otherwise activation clears INACTIVE but "
+                   "leaves a suspend count nobody owns and nothing submitted ever runs", floor=2)
+    n = 0
+    for fn in prog.all_functions():
+        cxs = [i for i in fn.all_insts() if i.op == "cmpxchg" and (prog.fields(i) & DQ_STATE) and i.origin == "_dispatch_lane_try_inactive_suspend"] + \
+              calls_named(fn, "_dispatch_lane_try_inactive_suspend")
+        if fn.name == "_dispatch_lane_try_inactive_suspend":
+            continue
+        for cx in cxs:
+            n += 1
+            rep.saw(fn)
+            ctx = paths.PathCtx(fn)
+            if cx.op == "call":
+                ctx.truth[cx.id] = True
+            for u in fn.users(cx):
+                if u.op == "extractvalue" and u.d.get("idx") == [1]:
+                    ctx.truth[u.id] = True
+            res = paths.walk(fn, cx, lambda i: False, avoid=lambda i: i.op == "call" and i.callee in ("_dispatch_lane_resume", "dispatch_resume", "_dispatch_lane_resume_activate"), ctx=ctx)
+            exits = [r for r in res if r[0] == "exit"]
+            rep.require(rid, not exits, cx.loc, fn.name, "inactive-suspend-not-resumed:%s" % fn.name,
+                        "%s can return after _dispatch_lane_try_inactive_suspend succeeded without calling _dispatch_lane_resume (path %s): the suspend count taken "
+                        "to fence off a concurrent activation is leaked; dispatch_activate() then leaves the object suspended for ever and no item submitted to "
+                        "it runs" % (fn.name, exits[0][3] if exits else None), sample={"fn": fn.name, "paths": len(res)})
+    if n < 2:
+        rep.unknown(rid, "expected the inactive-suspend fence in _dispatch_lane_set_target_queue and _dispatch_source_set_handler, found %d" % n)
+
+
 def rule_WM6(rep, prog, q, ex):
     from .C01 import PLAIN_STORE_OK
     rid = rep.rule("C06-WM6", "the suspend count lives in dq_state: outside constructors / destructors the word is changed only by atomic read-modify-write "
@@ -410,6 +439,15 @@ def run(rep, tier="quick", srcdir=None, only=None):
         rule_MP4(rep, prog, q, ex)
     if want("C06-WM6"):
         rule_WM6(rep, prog, q, ex)
+    if want("C06-MP8"):
+        rule_MP8(rep, prog, q)
+    if want("C06-CP7"):
+        from .sync_common import rule_cas_memoryless
+        rid = rep.rule("C06-CP7", "the dq_state retry loops (suspend, resume, activate, the lock / width acquisitions) are memoryless: a decision taken by a failed "
+                       "attempt - e.g. resume's 'still suspended, nobody to wake' - is not carried into the attempt that succeeds on a different state", floor=15)
+        n = rule_cas_memoryless(rep, rid, prog, fields=DQ_STATE)
+        if n < 15:
+            rep.unknown(rid, "fewer than 15 dq_state retry loops found (%d)" % n)
     if want("C04-TR1"):
         # a suspended / inactive queue admits no new reader either: the width-taking fast paths carry the same "not suspended" guard (shared with C04)
         from . import C04
